@@ -1,44 +1,21 @@
-"""Pre-build the harness binaries of the quick tier (setup step; a cold cache only costs time, not correctness)."""
-import random, hashlib, os
-from . import common, cfg as cfgmod, props, units
+"""Pre-build the harness binaries of the quick tier (setup step; a cold cache only costs time, not correctness).
+Every check function is run once in build-only mode (VERIF_WARM: run_machine and the unit checks return after compiling, nothing is compared, no evidence is
+written), so exactly the binaries the quick checks use end up in the content-addressed cache - whatever configurations the checks define."""
+import os, sys
 
 def main():
-    jobs = []
-    for pid, spec in list(props.SPECS.items()) + [("C10", props.SPEC_C10_MACHINE)]:
-        rng = random.Random(int(hashlib.sha256((spec.pid + "quick").encode()).hexdigest()[:8], 16))
-        cs = spec.cfgs("quick", rng)
-        for c in cs + [dict(c, tapi=1) for k, c in enumerate(cs) if c["n"] <= 5 and (k % 2 == 0 or (c["plans"] and c["payload"]))]:
-            for v in spec.variants: jobs.append(("m", c, v, tuple(spec.extra_flags), spec.cxx, spec.opt))
-    for c in props.cfgs_san("quick", random.Random(1)): jobs.append(("m", c, "include", tuple(props.SAN), "g++", "-O0"))
-    for c in props.cfgs_copies("quick", random.Random(7)):
-        for v in ("include", "development"): jobs.append(("m", c, v, (), "g++", "-O0"))
-    for c in props.cfgs_features("quick", random.Random(1)):
-        for v in ("include", "development"): jobs.append(("m", c, v, (), "g++", "-O0"))
-    for (c, _s, _src) in props.plan_templates("quick"):
-        for v in ("include", "development"): jobs.append(("m", c, v, (), "g++", "-O0"))
-    import glob
-    from . import engine
-    for path in glob.glob(os.path.join(common.CORPUS, "*", "*.script")):
-        try: c = engine.cfg_from_line(open(path).readline())
-        except Exception: continue
-        for v in ("include", "development"): jobs.append(("m", c, v, (), "g++", "-O0"))
-    for v in ("include", "development"): jobs.append(("u", None, v, (), "g++", "-O0"))
-    src = os.path.join(common.HARNESS, "dispatch_harness.cpp")
-    for n in props.DP_QUICK:
-        for h in (0, 1):
-            for v in ("include", "development"): jobs.append(("d", (n, h), v, (), "g++", "-O0"))
-    seen = set(); todo = []
-    for j in jobs:
-        k = repr(j)
-        if k not in seen: seen.add(k); todo.append(j)
-    def one(j):
-        kind, c, v, fl, cxx, opt = j
-        if kind == "m": return cfgmod.build(c, v, extra_flags=fl, cxx=cxx, opt=opt)
-        if kind == "u": return units.build(v)
-        return common.build_binary(src, ["-DH_N=%d" % c[0], "-DH_HEAD=%d" % c[1]], v)
-    res = common.pmap(one, todo)
-    bad = sum(1 for b, _ in res if b is None)
-    print("warm-up: %d harness binaries (%d failed to build)" % (len(todo), bad))
+    os.environ["VERIF_WARM"] = "1"
+    os.environ.setdefault("VERIF_EVIDENCE_DIR", "/var/tmp/verif-warm-evidence")
+    from . import props, engine
+    n = 0
+    for pid in sorted(props.CHECKS):
+        run = engine.Run(pid, "quick", 1)
+        try:
+            props.CHECKS[pid](run)
+        except Exception as e:          # a check that cannot even be warmed up will say so itself when it is run
+            print("warm-up of %s stopped: %r" % (pid, e))
+        n += len(run.configs)
+    print("warm-up: %d configurations built or found in the cache" % n)
 
 if __name__ == "__main__":
     main()
